@@ -8,7 +8,8 @@ rsync -a --delete --exclude target --exclude target-rustls --exclude out --exclu
 mkdir -p $P/verif/out
 for spec in "$@"; do
   id="${spec%%:*}"; extra="${spec#*:}"; [ "$extra" = "$spec" ] && extra=""; extra="${extra//,/ }"
-  for n in 1 2 3; do
+  ns="1 2 3"; case "$id" in *@*) ns="${id#*@}"; ns="${ns//+/ }"; id="${id%%@*}";; esac
+  for n in $ns; do
     [ -f /tmp/wt/$id$suf/out/change$n.diff ] || continue
     WT_SUFFIX=$suf EVAL_VERIF=$P/verif EVAL_REPO=$P/repo VERIF_DIR=$P/verif /verif/tools/eval_seeded.sh $id $n $extra 2>&1 | grep -E "^(demo rc|-- ./check|violation|RESULT|failed tests|patch|cannot|no |HARNESS)" | cut -c1-300
   done
